@@ -32,6 +32,9 @@ pub fn configs(thorough: bool) -> Vec<McConfig> {
     ];
     // few degrees of freedom: here a wrong number of degrees of freedom or a one-sided quantile is an O(0.05) effect
     v.push(McConfig { name: "decay/dof2/w=1/sd", fns: vec![(Kind::Exp, vec![0])], truth: vec![2.0], coef: vec![3.0], n: 4, xmax: 5.0, base: 1e-3, slope: 1.0, wmode: 1, built: true });
+    // ONE degree of freedom: the Student-t quantile is far from the normal one (6.31 instead of 1.64 at
+    // p = 0.9) - an approximate quantile (series in 1/dof, normal limit) shows as an O(0.04) loss of coverage (round 12)
+    v.push(McConfig { name: "decay/dof1/w=1/sd", fns: vec![(Kind::Exp, vec![0])], truth: vec![2.0], coef: vec![3.0], n: 3, xmax: 4.0, base: 1e-3, slope: 1.0, wmode: 1, built: false });
     // no constant term in the span of the Jacobian and few degrees of freedom: anything that treats the
     // weighted residuals as a SAMPLE (subtracting their mean, N-1 instead of N-M-P, ...) shows here
     v.push(McConfig { name: "oscillation/dof5/w=1/sd", fns: vec![(Kind::Sinus, vec![0, 1])], truth: vec![1.3, 0.4], coef: vec![3.0], n: 8, xmax: 6.0, base: 1e-3, slope: 1.0, wmode: 1, built: false });
